@@ -28,7 +28,7 @@ func init() {
 			{ID: "C07.R3", Min: 8, Desc: "one-way transitions with documented errors", Fn: c07Transitions},
 			{ID: "C07.R4", Min: 2, Desc: "bounded waits on the stop path", Fn: c07BoundedWaits},
 			{ID: "C07.R5", Min: 5, Desc: "shutdown wiring: poison kill of root, cancel, guardian goroutine", Fn: c07Wiring},
-			{ID: "C07.R7", Min: 4, Desc: "a remote send in its retry loop aborts once the system context is cancelled, so Stop is not held up by an unreachable peer (C14.R4)", Fn: c14Retry},
+			{ID: "C07.R7", Min: 1, Desc: "a remote send in its retry loop aborts once the system context is cancelled, so Stop is not held up by an unreachable peer (part of C14.R4)", Fn: c14StopAborts},
 			{ID: "C07.R6", Min: 1, Desc: "guard signal closed only for the root's own OnKilled", Fn: c07GuardSignal},
 		},
 	})
